@@ -674,15 +674,26 @@ pub fn migrating<W: Whole>(rep: &mut Rep, k: [u8; 40], seed: u64, hops: usize) {
 /// A half created at the start is kept alive and must never pair with the halves of the very many objects with other
 /// session keys that the process creates afterwards.
 pub fn old_half_sweep(rep: &mut Rep, rng: &mut Rng, objects: usize) {
-    let k0: [u8; 40] = rng.arr();
-    let (old_e, old_d) = objs::vanilla_pair(k0).0.split();
+    // several old halves, created at different moments of the process
+    let mut olds = Vec::new();
+    for _ in 0..32 {
+        let k0: [u8; 40] = rng.arr();
+        olds.push(objs::vanilla_pair(k0).0.split());
+        let _ = objs::vanilla_pair(rng.arr());
+    }
     let mut bad = 0u64;
     for i in 0..objects {
         let k: [u8; 40] = rng.arr();
         let (c, s) = objs::vanilla_pair(k);
         let (e1, d1) = c.split();
         let (e2, d2) = s.split();
-        if old_e.is_pair_of(&d1) || old_e.is_pair_of(&d2) || old_d.is_pair_of(&e1) || old_d.is_pair_of(&e2) {
+        let mut hit = false;
+        for (old_e, old_d) in olds.iter() {
+            if old_e.is_pair_of(&d1) || old_e.is_pair_of(&d2) || old_d.is_pair_of(&e1) || old_d.is_pair_of(&e2) {
+                hit = true;
+            }
+        }
+        if hit {
             bad += 1;
             if bad == 1 {
                 rep.violation(
@@ -694,7 +705,7 @@ pub fn old_half_sweep(rep: &mut Rep, rng: &mut Rng, objects: usize) {
         }
     }
     rep.ev(objects as u64);
-    rep.count("objects_tested_against_an_old_half", 2 * objects as u64);
+    rep.count("objects_tested_against_32_old_halves", 2 * objects as u64);
     rep.cell(&[57, 0]);
 }
 
@@ -792,7 +803,7 @@ yields compared with the models. distinct = op-kind 3-grams per expansion + unsp
     let (nhist, max_ops, max_chunk, rounds, ksets): (usize, usize, usize, usize, usize) = match tier {
         "quick" => (16_000, 400, 300, 2000, 40),
         "thorough" => (1_200_000, 400, 300, 100_000, 6000),
-        _ => (3, 14, 40, 2, 0),
+        _ => (2, 14, 40, 2, 0),
     };
     let shards = if tier == "miri" { 1 } else { 64 };
     let r = par(shards, if tier == "miri" { 1 } else { threads() }, |sh| {
@@ -802,7 +813,7 @@ yields compared with the models. distinct = op-kind 3-grams per expansion + unsp
         for i in 0..per {
             let k: [u8; 40] = rng.arr();
             let hs = rng.next();
-            let which = if tier == "miri" { [0usize, 1, 2 + (seed as usize % 2)][i % 3] } else { (sh + i) % 4 };
+            let which = if tier == "miri" { [seed as usize % 2, 2 + (seed as usize / 2 % 2)][i % 2] } else { (sh + i) % 4 };
             match which {
                 0 => history::<vanilla_header::HeaderCrypto>(&mut rep, k, hs, max_ops, max_chunk),
                 1 => history::<tbc_header::HeaderCrypto>(&mut rep, k, hs, max_ops, max_chunk),
@@ -821,7 +832,7 @@ yields compared with the models. distinct = op-kind 3-grams per expansion + unsp
             }
         }
         if tier != "miri" {
-            old_half_sweep(&mut rep, &mut rng, if tier == "quick" { 6000 } else { 60_000 });
+            old_half_sweep(&mut rep, &mut rng, if tier == "quick" { 10_000 } else { 200_000 });
         }
         rep
     });
